@@ -282,7 +282,7 @@ fn scenario_restart(rng: &mut Rng, id: String, rep: &mut Report, props: &[&str])
     let n_old = rng.range(50, 1500);
     w.push_via(k, n_old, true);
     // (restart twice without a tick has the most sub-cases and gets a double share)
-    let variant = [0, 1, 2, 2, 3, 4, 5, 6, 2][rng.below(9)];
+    let variant = [0, 1, 2, 2, 3, 4, 5, 6, 2, 7][rng.below(10)];
     let clear = if variant == 2 { rng.chance(1, 4) } else { rng.coin() };
     let mut gap_behind = 0usize;
     // old injectors keep pushing from two threads across all of it
@@ -425,6 +425,45 @@ fn scenario_restart(rng: &mut Rng, id: String, rep: &mut Report, props: &[&str])
                 cancel_pause(0);
                 rep.count("directed.phase-not-reached");
             }
+        }
+        7 => {
+            // the new stream has the same number of items and of matches as the old one, under the same pattern, but at
+            // other positions (the same texts in reverse order)
+            stop.store(true, Ordering::Relaxed);
+            for p in pushers.drain(..) {
+                let _ = p.join();
+            }
+            if w.texts[0].is_empty() {
+                w.edit(0, *rng.pick(&["o", "a", "f"]));
+            }
+            w.restart(true);
+            let period = (35 * 4 * 12) as u32;
+            let n = rng.range(3, 40) as u32;
+            let ka = w.new_injector();
+            let base = (w.alloc_ids(period * 2) / period + 1) * period;
+            inject(&w.handles[ka].inj, &w.reg, w.cur, base, n as usize, true, &w.invoked, &w.completed);
+            while w.tick(30).running {}
+            w.restart(false);
+            let kb = w.new_injector();
+            let base2 = (w.alloc_ids(period * 2) / period + 1) * period;
+            for i in (0..n).rev() {
+                inject(&w.handles[kb].inj, &w.reg, w.cur, base2 + i, 1, false, &w.invoked, &w.completed);
+            }
+            let mut g = 0;
+            while w.tick(30).running && g < 200 {
+                g += 1;
+            }
+            let (_, expected) = w.expected_quiescent();
+            let got: Vec<(u32, u32)> = w.nucleo.as_ref().unwrap().snapshot().matches().iter().map(|m| (m.score, m.idx)).collect();
+            if got != expected {
+                let msg = format!(
+                    "after restart(false) and {n} new items (same texts as the old stream, reversed) the quiescent snapshot has matches {:?}..., the new stream gives {:?}...",
+                    &got[..got.len().min(6)],
+                    &expected[..expected.len().min(6)]
+                );
+                w.problem("C12", "new-stream-results-wrong-after-restart", msg);
+            }
+            rep.count("directed.restart.same-counts-other-positions");
         }
         6 => {
             // an empty new stream with exactly one injector whose first run is not picked up, then another restart: the
